@@ -1,7 +1,7 @@
 #!/usr/bin/env python3
 """Confirm candidate mutations: demo passes on clean tree, patch applies, 116 tests pass, demo fails.
 usage: confirm_seeded.py <incoming_dir> <dest_seeded_dir>"""
-import json, os, shutil, subprocess, sys, tempfile
+import json, os, re, shutil, subprocess, sys, tempfile
 inc, dest = sys.argv[1], sys.argv[2]
 PY = '/venv/bin/python'
 def run(cmd, cwd, env=None, timeout=900):
@@ -12,7 +12,7 @@ head = subprocess.check_output(['git', '-C', '/repo', 'rev-parse', '--short', 'H
 results = []
 for pid in sorted(os.listdir(inc)):
     pdir = os.path.join(inc, pid)
-    if not os.path.isdir(pdir) or not (pid.startswith('C') or pid.startswith('R2C') or pid.startswith('R3C') or pid.startswith('R4C') or pid.startswith('R5C') or pid.startswith('R6C')): continue
+    if not os.path.isdir(pdir) or not re.fullmatch(r'(R\d+)?C\d\d', pid): continue
     for m in sorted(os.listdir(pdir)):
         mdir = os.path.join(pdir, m)
         patch = os.path.join(mdir, 'patch.diff'); demo = os.path.join(mdir, 'demo.py')
